@@ -208,6 +208,10 @@ func genCfg(g *RNG, meta *MetaTable, class string) CfgSpec {
 		} else {
 			shape = pick(g, []string{"float_for_int", "huge_int", "unknown_key", "inline_table", "nested_table"})
 			must = false
+			if shape == "huge_int" && !meta.ByName[L].Probe {
+				// a real lint's integer option is a round count: 2^63 rounds is a legal request that never ends
+				shape = "unknown_key"
+			}
 		}
 		switch shape {
 		case "scalar_int":
